@@ -352,6 +352,78 @@ def r6_map_protocol(rep, facts):
                       f'("no more values in next_value_seed")', facts.loc(b, v))
 
 
+def r7_access_ends(rep, facts):
+    R = rep.rule('C04/R7', 'decoding terminates: every MapAccess / SeqAccess of the workspace, driven the way serde visitors drive it (key, value, key, value, .. / element, element, ..) '
+                 'on a model with one to three entries, announces the end after its last entry (evaluated).  A map that keeps offering the same key makes every visitor that '
+                 'reads "until None" spin forever', floor=6)
+    from .den import RecInterp, Evaluator, Unanalysable, EvalPanic, IterObj
+    SOME, NONE, OK = 'core::option::Option::Some', 'core::option::Option::None', 'core::result::Result::Ok'
+    key = lambda n: ('struct', 'toml_edit::key::Key', {'key': ('key', n), 'repr': ('ctor', NONE), 'leaf_decor': ('opaque',), 'dotted_decor': ('opaque',)})
+
+    def model(ty):
+        adt = facts.adts.get(ty.split('<')[0]) or {}
+        st = {}
+        n_entries = 0
+        for v in adt.get('variants', []):
+            for fl in v['fields']:
+                t = fl['ty']
+                if fl['name'] == 'iter':
+                    pairs = 'Map' in t or 'map' in t
+                    mk = (lambda i: ((key(i) if 'toml_edit' in ty else f'k{i}'), ('item', i))) if pairs else (lambda i: ('item', i))
+                    st['iter'] = IterObj([mk(0), mk(1)])
+                    n_entries += 2
+                elif fl['name'] == 'value' and 'iter' in [x['name'] for x in v['fields']]:
+                    st['value'] = ('ctor', NONE)
+                elif t.startswith('core::option::Option<'):
+                    st[fl['name']] = ('ctor', SOME, ((fl['name'],),))
+                    n_entries += 1
+                else:
+                    st[fl['name']] = ('opaque',)
+        return ('struct', ty, st), n_entries
+    n = 0
+    for imp in facts.impls:
+        tr = imp.get('trait') or ''
+        kind = 'map' if tr.startswith('serde::de::MapAccess') else 'seq' if tr.startswith('serde::de::SeqAccess') else None
+        if kind is None or not (imp.get('self_ty') or '').split('::')[0] in ('toml', 'toml_edit', 'toml_datetime', 'serde_spanned'):
+            continue
+        ty = imp['self_ty']
+        items = {i['name']: i['def'] for i in imp['items']}
+        first = 'next_key_seed' if kind == 'map' else 'next_element_seed'
+        if first not in items or not facts.has_body(items[first]):
+            continue
+        me, n_entries = model(ty)
+        log = []
+        ended = None
+        try:
+            for rnd in range(n_entries + 3):
+                bk = facts.body(items[first])
+                pn = [p_['name'] for p_ in bk['params'] if p_.get('k') == 'p_bind']
+                it = RecInterp(Evaluator(facts), {'deserialize'}, {'new'}, stubs={'span': ('ctor', NONE)})
+                r = it.run_body(bk, {pn[0]: me, pn[1]: ('seed',), '@assign': {}})
+                isnone = isinstance(r, tuple) and r[:2] == ('ctor', OK) and r[2][0] == ('ctor', NONE)
+                log.append('end' if isnone else ('key' if kind == 'map' else 'element'))
+                if isnone:
+                    ended = rnd
+                    break
+                if kind == 'map':
+                    bv = facts.body(items['next_value_seed'])
+                    pn = [p_['name'] for p_ in bv['params'] if p_.get('k') == 'p_bind']
+                    it = RecInterp(Evaluator(facts), {'deserialize', 'into_deserializer'}, {'new'}, stubs={'span': ('ctor', NONE)})
+                    it.run_body(bv, {pn[0]: me, pn[1]: ('seed',), '@assign': {}})
+                    log.append('value')
+        except EvalPanic as e:
+            rep.bad(R, ty, f'`{ty}` panics when driven as {kind} access: {e} (after {log})', facts.loc(facts.body(items[first])))
+            n += 1
+            continue
+        except Unanalysable as e:
+            rep.incomplete(R, ty, f'cannot evaluate `{ty}`: {e}', facts.loc(facts.body(items[first])))
+            continue
+        n += 1
+        rep.check(R, ty, ended is not None and ended <= n_entries, f'{" ".join(log)}', f'`{ty}` with {n_entries} entr{"y" if n_entries == 1 else "ies"} does not announce its end: {" ".join(log)} .. — a visitor '
+                  f'that reads until the end (a derived struct, a map, IgnoredAny) never returns', facts.loc(facts.body(items[first])))
+    rep.check(R, 'count', n >= 5, f'{n} access types evaluated', f'only {n} MapAccess / SeqAccess implementations found')
+
+
 def rules(rep, facts):
     feats = set(facts.crates.get('toml_edit', {}).get('features', []))
     if 'toml_edit' not in facts.crates or not {'parse', 'display', 'serde'} <= feats or 'toml' not in facts.crates:
@@ -368,6 +440,7 @@ def rules(rep, facts):
     r4_progress(rep, facts, g)
     r5_from_slice(rep, facts)
     r6_map_protocol(rep, facts)
+    r7_access_ends(rep, facts)
     # R2: the structural guards the allowlist reasons rely on
     from .rules_c12 import r3b_digit
     from .rules_c15 import r4_rendering
